@@ -7,6 +7,7 @@ package main
 import (
 	"fmt"
 	"go/types"
+	"sort"
 	"strings"
 
 	"golang.org/x/tools/go/ssa"
@@ -245,5 +246,30 @@ func ruleCNV34(p *Program) *RuleResult {
 		}
 	}
 	r.floor("hypotheses", 80)
+	return r
+}
+
+// CNV5: the conversion functions decide on exact values: no float64 detour in
+// their call closure (a Decimal that differs from 1.0 beyond float64 precision
+// must not convert to Boolean, Integer, …).
+func ruleCNV5(p *Program) *RuleResult {
+	r := newResult("CNV5")
+	for _, n := range []string{"ToBoolean", "ToInteger", "ToDecimal", "ToString", "ToDate", "ToDateTime", "ToTime", "ToQuantity",
+		"ConvertsToBoolean", "ConvertsToInteger", "ConvertsToDecimal", "ConvertsToString", "ConvertsToDate", "ConvertsToDateTime", "ConvertsToTime", "ConvertsToQuantity"} {
+		fn, err := p.Func("fhirpath/internal/funcs/impl", n)
+		if err != nil {
+			return r.anchorFail(err)
+		}
+		r.count("conversion_functions", 1)
+		d := floatDetourIn(fn, map[*ssa.Function]bool{}, 0)
+		sort.Strings(d)
+		key := "impl." + n + "|float-detour"
+		if len(d) == 0 {
+			r.ok(key, "impl."+n+" converts without float64", p.pos(fn.Pos()), "call closure contains no float64 conversion", true)
+		} else {
+			r.bad(key, "impl."+n+" detours through float64: "+strings.Join(uniq(d), ", "), p.pos(fn.Pos()), "values that differ only beyond 15-17 significant digits convert alike: the conversion table is decided on a rounded value")
+		}
+	}
+	r.floor("conversion_functions", 16)
 	return r
 }
